@@ -201,6 +201,12 @@ def run_impl(case):
         if k == "STEP":
             if im.env.peek() == im.env.now:
                 pop()
+        elif k == "WAKE":
+            im.env.timeout(op[1])           # a wake-up of the harness's own (some process of the model resumes then): no store op
+        elif k == "NEXT":
+            if im.env.peek() != float("inf"):
+                pop()                       # exactly one kernel event, whatever its time: the clock may now stand at an
+                #                             instant whose other events (the store's own timers) have not run yet
         elif k == "ADV":
             target = im.env.now + op[1]
             err = None
@@ -278,7 +284,7 @@ def gen_case(rng, kind, n_ops, malformed=False):
         if malformed:
             choices.append(("BAD", 6))
         if kind in BELTS:
-            choices += [("ADV", 4), ("STEP", 2)]
+            choices += [("ADV", 4), ("STEP", 2), ("WAKE", 2), ("NEXT", 4)]
         k = rng.choices([c for c, _ in choices], [w for _, w in choices])[0]
         if k == "RPUT":
             op = ("RPUT", rng.randrange(nprocs), rng.choice(prios))
@@ -299,6 +305,10 @@ def gen_case(rng, kind, n_ops, malformed=False):
             op = ("STEP",)
         elif k == "ADV":
             op = ("ADV", rng.choice([1, 1, 2, 3, 5]))
+        elif k == "WAKE":
+            op = ("WAKE", rng.choice([1, 1, 2, 3]))
+        elif k == "NEXT":
+            op = ("NEXT",)
         else:
             every = list(range(len(im.toks)))
             bad = rng.choice(["foreign", "reuse", "wrongowner", "pending", "cancelled", "crossside"])
@@ -328,6 +338,11 @@ def gen_case(rng, kind, n_ops, malformed=False):
         ops.append(op)
         if op[0] == "STEP":
             if im.env.peek() == im.env.now:
+                im.pop()
+        elif op[0] == "WAKE":
+            im.env.timeout(op[1])
+        elif op[0] == "NEXT":
+            if im.env.peek() != float("inf"):
                 im.pop()
         elif op[0] == "ADV":
             target = im.env.now + op[1]
